@@ -12,7 +12,6 @@ A *spec* is a JSON-able dict naming a configuration:
 """
 from __future__ import annotations
 
-import itertools
 import math
 import traceback
 from operator import itemgetter
@@ -217,6 +216,7 @@ class A_LND(Adapter):
 
 class A_L2D(A_LND):
     kind = "L2D"
+    keeps_first = False         # Learner2D.tell has no "already known" guard: a re-tell overwrites
 
     def make(self):
         from adaptive import Learner2D
@@ -494,8 +494,20 @@ def base_kind(spec):
 
 
 # ---------------------------------------------------------------- observation
-def snapshot(ad: Adapter, l):
-    """Everything the properties call observable, in canonical form."""
+def _l2d_leaves(ad, l):
+    k = ad.spec["kind"]
+    if k == "Bal":
+        return [x for c in l.learners for x in _l2d_leaves(ad.child, c)]
+    if k == "DS":
+        return _l2d_leaves(ad.child, l.learner)
+    return [l] if k == "L2D" else []
+
+
+def snapshot(ad: Adapter, l, fresh=False):
+    """Everything the properties call observable, in canonical form.  With
+    fresh=True (C10 only) the expected loss is read a second time after the
+    learners' cached combined interpolators / the wrapper's loss caches were
+    dropped, so that a clause can tell "stale cache" from "wrong state"."""
     def guarded(f, c=canon):
         try:
             return c(f())
@@ -513,6 +525,14 @@ def snapshot(ad: Adapter, l):
         # what the children say right now (the BalancingLearner caches their losses)
         s["fresh_real"] = guarded(lambda: max(c.loss(real=True) for c in l.learners))
         s["fresh_exp"] = guarded(lambda: max(c.loss(real=False) for c in l.learners))
+    if fresh and base_kind(ad.spec) == "L2D":
+        for b in _l2d_leaves(ad, l):
+            b._ip_combined = None
+        if ad.spec["kind"] == "Bal":
+            s["fresh_exp"] = guarded(lambda: max(c.loss(real=False) for c in l.learners))
+        else:
+            s["fresh_exp"] = guarded(lambda: l.loss(real=False))
+            s["fresh_real"] = s["loss_real"]
     return s
 
 
